@@ -4,15 +4,18 @@ Family sweep (engine F): every construct of a catalogue is scaled by
 repetition or by nesting, and every ordered pair of nestable constructs is
 nested alternately; the cost of a member is the deterministic number of Python
 call events inside c_parser.py / c_lexer.py / ast_transforms.py during
-parse().  Oracle on each family at sizes k, 2k, 4k:
+parse().  Oracle on every window (k, 2k, 4k) of the doubling sizes of a family,
+smallest window first:
 
     s(4k) - s(2k) <= 2.5 * (s(2k) - s(k))
 
 (exact for affine cost, tolerant of a log factor, violated by quadratic (4x)
-and exponential growth whatever the constants).  The lexer's regular
+and exponential growth whatever the constant terms).  The lexer's regular
 expressions do their work inside `re`, invisible to call counts, so adversarial
-literal families are timed on the stand-alone lexer (the only wall-clock in the
-framework): t(n) <= 50 x the linear extrapolation from n = 2^10, and < 2 s.
+literal families are timed on the stand-alone lexer (the only clock in the
+framework; CPU time of the process where that is less than the wall time, so
+that waiting for a CPU on a loaded machine is not counted): t(n) <= 50 x the
+linear extrapolation from n = 2^10, and < 2 s.
 """
 from __future__ import annotations
 
@@ -157,7 +160,7 @@ def _work(task):
 
 
 # ---------------------------------------------------------------------------
-# lexer families (wall clock, wide margins)
+# lexer families (the clock, wide margins)
 # ---------------------------------------------------------------------------
 def eval_lexer_family(name):
     fn = F.LEXER_FAMILIES[name]
@@ -215,15 +218,17 @@ def _doubling(lo, hi):
 
 
 def plan(tier):
-    """Sizes: the windows asked for are (k, 2k, 4k) with k = 8 / 16 for nesting
-    and 32 / 64 for repetition, pairs at depths (4, 8, 16) and, thorough, (8,
-    16, 32).  Two smaller sizes are measured first (windows (k/4, k/2, k) and
-    (k/2, k, 2k)): smallest-first makes the reported case minimal and stops an
-    exponential family long before its big members would be run."""
+    """Sizes: the windows asked for are (k, 2k, 4k) with k = 8 (quick) / 16
+    (thorough) for nesting and 32 / 64 for repetition, pairs at depths (4, 8,
+    16) and, thorough, (8, 16, 32).  Every tier starts lower (nesting and
+    pairs at 2, repetition at 8) and applies the oracle to every window on the
+    way up: smallest-first makes the reported case minimal and stops an
+    exponential family long before its big members would be run; thorough
+    explores a superset of quick."""
     quick = tier == "quick"
-    rep_sizes = _doubling(8, 128) if quick else _doubling(16, 256)
-    nest_sizes = _doubling(2, 32) if quick else _doubling(4, 64)
-    pair_sizes = _doubling(2, 16) if quick else _doubling(2, 32)
+    rep_sizes = _doubling(8, 128 if quick else 256)
+    nest_sizes = _doubling(2, 32 if quick else 64)
+    pair_sizes = _doubling(2, 16 if quick else 32)
     fams = []
     for name in F.REPEATABLE:
         fams.append(("rep", name, rep_sizes, True, True))
